@@ -41,7 +41,13 @@ def run_tuple(args):
     exists = os.path.exists(p)
     verdict = None
     if rc == 0 and exists:
+        # independent reader on the fresh file (before anything is stored in it)
+        kk = '5.25in-13' if o == 'dos32' else k
+        out = fw.run_lines(fw.HARNESS_BIN, [f"fsckfile f{i} {o} {kk} {p}"], shards=1)
+        fs_verdict = out.get(f"f{i}", 'NO-OUTPUT')
         verdict = validate(p, o, k, ty, d, i)
+        if verdict is None and not fs_verdict.startswith('ok'):
+            verdict = fs_verdict
     if exists:
         os.remove(p)
     return (o, k, ty, w, rc, exists, verdict)
